@@ -79,6 +79,14 @@ def chk_project(inp):
         f.append("still_valid_rigid_body_poses (check())")
     if not np.allclose(t.positions_xyz, new[:, :3, 3]) or len(t.orientations_quat_wxyz) != n:
         f.append("views_consistent_after_projection")
+    else:
+        # the orientation seen through the quaternion view is the projected one as well
+        from evo.core import transformations as tr
+        for k in range(n):
+            if not np.allclose(tr.quaternion_matrix(t.orientations_quat_wxyz[k])[:3, :3], new[k][:3, :3], atol=1e-7):
+                f.append("orientation_is_a_pure_rotation_about_the_normal (quaternion view of pose %d is not the projected "
+                         "orientation)" % k)
+                break
     try:
         t.project(plane)
         f.append("second_projection_refused")
